@@ -24,8 +24,9 @@ BATCH = 40  # modules per workspace
 
 def _tool_hash():
     h = hashlib.sha256()
-    for fn in ["gen_app.py", "e2e.py", "e2e_stage.py"]:
-        h.update(open(os.path.join(pxvlib.VERIF, "tools", fn), "rb").read())
+    for fn in ["gen_app.py", "e2e.py", "e2e_stage.py", "gen_routes.py", "gen_planted.py"]:
+        if os.path.exists(os.path.join(pxvlib.VERIF, "tools", fn)):
+            h.update(open(os.path.join(pxvlib.VERIF, "tools", fn), "rb").read())
     for fn in sorted(glob.glob(os.path.join(pxvlib.VERIF, "corpus", "e2e", "*"))):
         h.update(open(fn, "rb").read())
     return h.hexdigest()[:10]
